@@ -56,6 +56,29 @@ def build_automaton(seqs):
     return root, nodes
 
 
+def label_divergences(seqs):
+    """Where paths share a prefix (operations and outcomes) and continue with different operations - a branch on
+    something no modelled operation decides, e.g. the outcome of the fetch - insert an explicit ("choice", n)
+    operation whose outcome k selects the continuation, so that the automaton keeps both."""
+    seqs = [list(s) for s in seqs]
+    site = 0
+    while True:
+        groups = {}
+        for s in seqs:
+            for i in range(len(s) + 1):
+                groups.setdefault(tuple(s[:i]), set()).add(s[i][0] if i < len(s) else ("END",))
+        conflict = sorted((p for p, nxt in groups.items() if len(nxt) > 1 and not any(o[0] == "choice" for o in nxt)), key=len)
+        if not conflict:
+            return seqs
+        pre = conflict[0]
+        order = sorted(groups[pre], key=str)
+        site += 1
+        for s in seqs:
+            if tuple(s[:len(pre)]) == pre:
+                nxt = s[len(pre)][0] if len(s) > len(pre) else ("END",)
+                s.insert(len(pre), (("choice", site), order.index(nxt)))
+
+
 W = 6
 NONE = (1 << W) - 1        # "no thread / no mutex"
 NOBRANCH = (1 << W) - 2    # automaton has no successor for the observed outcome
@@ -186,6 +209,14 @@ class Model:
             up["run_mid"] = IV(-1)
         elif prim == "member_insert":
             up["member"] = z3.BoolVal(True)
+        elif prim == "choice":
+            # a branch the environment decides (e.g. the outcome of the fetch): any successor may be taken
+            self._nchoice = getattr(self, "_nchoice", 0) + 1
+            var = z3.BitVec("choice_%d" % self._nchoice, W)
+            keys = sorted(k for k in node.next if k is not None)
+            nxt = IV(node.next[keys[-1]].id)
+            for k in keys[:-1]:
+                nxt = z3.If(var == IV(k), IV(node.next[k].id), nxt)
         else:
             raise ValueError("unknown primitive %r" % (op,))
         return en, up, nxt
@@ -266,9 +297,13 @@ class Model:
             pc = m.eval(self.states[t]["pc%d" % i], model_completion=True).as_long()
             node = self.nodes[pc]
             st = self.states[t + 1]
-            out.append({"step": t, "thread": i, "op": " ".join(str(x) for x in node.op),
-                        "member": str(m.eval(st["member"], True)), "running_has": str(m.eval(st["run_has"], True)),
-                        "fetches": m.eval(st["fetch_count"], True).as_long()})
+            row = {"step": t, "thread": i, "op": " ".join(str(x) for x in node.op),
+                   "member": str(m.eval(st["member"], True)), "running_has": str(m.eval(st["run_has"], True)),
+                   "fetches": m.eval(st["fetch_count"], True).as_long()}
+            if node.op[0] == "choice":
+                npc = m.eval(st["pc%d" % i], model_completion=True).as_long()
+                row["choice"] = [k for k, n in node.next.items() if n.id == npc][0]
+            out.append(row)
         return out
 
 
@@ -281,6 +316,9 @@ def simulate(nodes, n_threads, schedule, rwlocks):
           "w": {l: -1 for l in rwlocks}, "r": {l: 0 for l in rwlocks},
           "fetch_active": 0, "fetch_count": 0, "ret_during_fetch": False, "overlap": False}
     for i in schedule:
+        pick = None
+        if isinstance(i, tuple):
+            i, pick = i
         node = nodes[pc[i]]
         op = node.op
         p = op[0]
@@ -345,6 +383,10 @@ def simulate(nodes, n_threads, schedule, rwlocks):
             st["run_mid"] = -1
         elif p == "member_insert":
             st["member"] = True
+        elif p == "choice":
+            nxt = node.next.get(pick)
+            if nxt is None:
+                return None
         pc[i] = nxt.id
         if nodes[pc[i]].op[0] == "end" and st["fetch_active"] > 0:
             st["ret_during_fetch"] = True
